@@ -3,13 +3,115 @@ from harness import core
 from harness.props import sqlcommon as SC
 
 PID = 'C04'
-THEOREMS = ['PyDBML.C04.inline_site', 'PyDBML.C04.inline_count', 'PyDBML.C04.never_both', 'PyDBML.C04.direction_left', 'PyDBML.C04.direction_right', 'PyDBML.C04.source_is_keyHolder', 'PyDBML.C04.constraint_iff_name', 'PyDBML.C04.actions_iff_set', 'PyDBML.C04.m2m_never_inline']
-MODULES = ['PyDBMLProofs.Props.C04']
+THEOREMS = ['PyDBML.C04.inline_site', 'PyDBML.C04.inline_count', 'PyDBML.C04.never_both', 'PyDBML.C04.direction_left', 'PyDBML.C04.direction_right', 'PyDBML.C04.source_is_keyHolder', 'PyDBML.C04.constraint_iff_name', 'PyDBML.C04.actions_iff_set', 'PyDBML.C04.m2m_never_inline',
+            'PyDBML.C04.read_render_fk']
+MODULES = ['PyDBMLProofs.Props.C04', 'PyDBMLProofs.Props.C04Read']
+
+
+# ---- the proved reader of FOREIGN KEY statements (PyDBMLModel/SqlRead.lean, C04Read.lean) run on reference.sql of the real code ----
+
+ACTIONS = [None, None, 'cascade', 'set null', 'no action', 'restrict', 'set default', 'CASCADE']
+REF_NAMES = [None, None, '', 'fk', 'fk 1', 'orders->users', "it's", 'ünï']
+
+
+def gen_fk_spec(rng):
+    from harness.props import c03
+    tables = c03.gen_reader_spec(rng)
+    refs = []
+    for _ in range(rng.choice([1, 1, 2, 3])):
+        t1, t2 = rng.randrange(len(tables)), rng.randrange(len(tables))
+        n = min(len(tables[t1]['columns']), len(tables[t2]['columns']), rng.choice([1, 1, 2, 3]))
+        c1 = rng.sample(range(len(tables[t1]['columns'])), n)
+        c2 = rng.sample(range(len(tables[t2]['columns'])), n)
+        refs.append({'type': rng.choice(['>', '<', '-']), 't1': t1, 'col1': c1, 't2': t2, 'col2': c2, 'name': rng.choice(REF_NAMES),
+                     'on_update': rng.choice(ACTIONS), 'on_delete': rng.choice(ACTIONS)})
+    return {'tables': tables, 'refs': refs}
+
+
+def fk_expect(spec):
+    """what the statement promises of each standalone reference, from the generated content alone"""
+    def q(t):
+        return '"%s"' % t['name'] if t['schema'] == 'public' else '"%s"."%s"' % (t['schema'], t['name'])
+    out = []
+    for r in spec['refs']:
+        a, b = (spec['tables'][r['t1']], r['col1']), (spec['tables'][r['t2']], r['col2'])
+        src, dst = (b, a) if r['type'] == '<' else (a, b)          # the key holder gets the FOREIGN KEY
+        out.append({'src': q(src[0]), 'constraint': r['name'] or None, 'src_cols': [src[0]['columns'][i]['name'] for i in src[1]],
+                    'dst': q(dst[0]), 'dst_cols': [dst[0]['columns'][i]['name'] for i in dst[1]],
+                    'actions': (' ON UPDATE ' + r['on_update'].upper() if r['on_update'] else '')
+                               + (' ON DELETE ' + r['on_delete'].upper() if r['on_delete'] else '')})
+    return out
+
+
+def fk_job(spec):
+    from pydbml import Database
+    from pydbml.classes import Table, Column, Reference
+    db = Database()
+    tabs = []
+    for t in spec['tables']:
+        tb = Table(t['name'], schema=t['schema'])
+        for c in t['columns']:
+            tb.add_column(Column(c['name'], c['type'], pk=c['pk']))
+        db.add(tb)
+        tabs.append(tb)
+    out = []
+    for r in spec['refs']:
+        ref = Reference(r['type'], [tabs[r['t1']].columns[i] for i in r['col1']], [tabs[r['t2']].columns[i] for i in r['col2']],
+                        name=r['name'], on_update=r['on_update'], on_delete=r['on_delete'])
+        try:
+            db.add(ref)
+        except Exception as e:      # noqa: an equal reference is there already
+            out.append(['dup', type(e).__name__])
+            continue
+        try:
+            out.append(['ok', ref.sql])
+        except Exception as e:      # noqa
+            out.append(['exc', type(e).__name__])
+    try:
+        whole = ['ok', db.sql]
+    except Exception as e:          # noqa
+        whole = ['exc', type(e).__name__]
+    return {'refs': out, 'db': whole}
+
+
+def part_fk_reader(ctx, drv):
+    if drv is None:
+        ctx.notes.append('FOREIGN KEY reader part skipped: no driver')
+        return
+    n = 300 if ctx.tier == 'quick' else 3000
+    specs = [gen_fk_spec(ctx.rng) for _ in range(n)]
+    res = core.pmap(fk_job, specs)
+    flat = [(si, ri) for si, r in enumerate(res) for ri, x in enumerate(r['refs']) if x[0] == 'ok']
+    read = drv.ask_many({'op': 'readfk', 'text': res[si]['refs'][ri][1]} for si, ri in flat)
+    got = {k: m.get('ok') for k, m in zip(flat, read)}
+    for si, (spec, r) in enumerate(zip(specs, res)):
+        ctx.case(core.h(spec), True)
+        exp = fk_expect(spec)
+        case = {'op': 'readfk', 'spec': spec}
+        stmts = []
+        for ri, x in enumerate(r['refs']):
+            ctx.count('fk-reader:' + x[0])
+            if x[0] == 'exc':
+                ctx.fail('reference.sql of a standalone reference raises', case, detail=x[1])
+            elif x[0] == 'ok':
+                ctx.count('fk-reader:kind ' + spec['refs'][ri]['type'] + (' composite' if len(spec['refs'][ri]['col1']) > 1 else ''))
+                stmts.append(x[1])
+                if got[(si, ri)] != exp[ri]:
+                    ctx.fail('the proved FOREIGN KEY reader does not read from reference.sql what the reference says '
+                             '(C04Read.read_render_fk)', case, detail={'expected': exp[ri], 'read': got[(si, ri)], 'ref': ri}, sql=x[1])
+        # exactly one statement per reference in db.sql
+        if r['db'][0] == 'ok':
+            alters = [l for l in r['db'][1].split('\n') if l.startswith('ALTER TABLE ')]
+            if sorted(alters) != sorted(stmts):
+                ctx.fail('db.sql does not hold exactly one ALTER TABLE statement per standalone reference', case,
+                         detail={'in db.sql': alters, 'reference.sql': stmts})
+        else:
+            ctx.fail('db.sql raises', case, detail=r['db'][1])
 
 
 def main(tier, seed):
     ctx = core.Ctx(PID, tier, seed, 'translation_validation', THEOREMS, MODULES)
-    problems = SC.run_sql_check(ctx, PID)
+    problems = SC.run_sql_check(ctx, PID, extra_parts=part_fk_reader)
     return ctx.finish(
         rule='random databases with 0-5 references: 4 kinds x inline/standalone x single/composite x self/cross-table/'
              'cross-schema x named/unnamed x 7x7 action pairs; every third spec wild. Non-trivial: >=1 reference; '
@@ -17,7 +119,13 @@ def main(tier, seed):
         explanation='Correspondence of the FOREIGN KEY lines of db.sql (with their enclosing CREATE TABLE) and of every '
                     'reference.sql with the Lean model; oracle: every FK (clause or ALTER) read back by the independent DDL '
                     'reader with its host, compared as a multiset with the expectation computed from the references; '
-                    'join tables of many-to-many references checked column by column.',
+                    'join tables of many-to-many references checked column by column. Theorem read_render_fk (C04Read.lean): a reader '
+                    'of ALTER TABLE ... FOREIGN KEY statements written in Lean (PyDBMLModel/SqlRead.lean, text only) reads from the '
+                    'statement the model writes for a standalone reference the key holder (left table for > and -, right table for <) '
+                    'as the altered table, its columns in order, the referenced table and columns, CONSTRAINT exactly when named, the '
+                    'action clauses; the same reader (driver op readfk) is run on reference.sql of the real code for API-built '
+                    'references (3 kinds x single/composite x named/unnamed/empty name x 8x8 actions x schemas x odd names) and must '
+                    'read exactly the generated content; db.sql must hold exactly these statements, one per reference.',
         assumptions=['oracle runs on reader-hygienic specs'],
         trusted_base=['Lean 4.33 kernel', 'hand-written model PyDBMLModel/RenderSql.lean tied by this correspondence',
                       'harness/ddl_reader.py', 'harness/sql_oracle.py'],
@@ -25,4 +133,18 @@ def main(tier, seed):
 
 
 def replay(path):
+    import json
+    c = json.load(open(path)).get('case', {})
+    if c.get('op') == 'readfk':
+        from harness.driver import Driver
+        r = fk_job(c['spec'])
+        exp = fk_expect(c['spec'])
+        bad = 0
+        with Driver() as d:
+            for ri, x in enumerate(r['refs']):
+                got = d.ask({'op': 'readfk', 'text': x[1]}).get('ok') if x[0] == 'ok' else None
+                print(ri, x, '\n   read    :', got, '\n   expected:', exp[ri])
+                bad += x[0] == 'exc' or (x[0] == 'ok' and got != exp[ri])
+        print('db.sql:', r['db'])
+        return 1 if bad else 0
     return SC.replay_sql(path, PID)
